@@ -11,7 +11,7 @@
 (* #4463 #4699 #4865 #4927, the comments on the constants and stage        *)
 (* functions in dnsforward/process.go and dnsproxy's Config.RefuseAny):    *)
 (*                                                                         *)
-(*  S1 refuse_any      a question of type ANY is refused (NOTIMP), whatever *)
+(*  S1 refuse_any      a question of type ANY is refused (NOTIMP) whatever *)
 (*                     the name; it is neither forwarded nor logged.       *)
 (*  S2 private zones   PTR/SOA/NS questions for a reverse name inside the  *)
 (*                     private networks are refused to clients from        *)
@@ -50,7 +50,18 @@
 (*                     when use_private_ptr_resolvers is off.              *)
 (*  S10 the rest       a blocked name is answered locally (C01), anything  *)
 (*                     else is forwarded to the general upstream, intact.  *)
-(*  The order S1..S10 is the order of precedence.                          *)
+(*  S11 DNS64          (use_dns64; RFC 6147 as quoted in dnsproxy) an AAAA *)
+(*                     answer keeps only the records outside the exclusion *)
+(*                     prefixes (dns64_prefixes, or the Well-Known Prefix  *)
+(*                     when none is configured); when none is left (or the *)
+(*                     answer is empty) the A records are asked for and    *)
+(*                     AAAA records are synthesised from them under the    *)
+(*                     first prefix; NXDOMAIN passes.  A DHCP lease        *)
+(*                     answers AAAA with its mapped address.  PTR for an   *)
+(*                     address under a DNS64 prefix goes to the private    *)
+(*                     resolvers only.                                     *)
+(*  S1..S10 is the order of precedence; S11 refines what forwarding (S10)  *)
+(*  delivers and the AAAA answer of S7; its PTR clause comes after S9.     *)
 (*                                                                         *)
 (* Where the documentation is silent the verdict is a SET:                 *)
 (*  * whether a locally answered request is written to the query log       *)
@@ -65,18 +76,28 @@
 (*      tls  [on : BOOLEAN, doh, dot, doq : port text or "", certIP],      *)
 (*      dhcp : BOOLEAN, leases : set of [h : label, a : address],          *)
 (*      suffix : name (sequence of labels), privPTR : BOOLEAN,             *)
-(*      blocked : set of names (each blocks itself and its subdomains)]    *)
+(*      blocked : set of names (each blocks itself and its subdomains),    *)
+(*      dns64 : BOOLEAN]                                                   *)
 (* req [name : lower-case labels, canon : the wire spelling was lower case,*)
 (*      qt : type text, cpriv : the client is inside the private networks, *)
 (*      rev [ok : the name is a reverse name, priv : of an address (or     *)
-(*           zone) inside the private networks, a : that address]]         *)
-(* out [c : class, fwd : "none" | "gen" | "priv", v : set of texts,        *)
+(*           zone) inside the private networks, a : that address,          *)
+(*           n64 : of an address under a configured DNS64 prefix or the    *)
+(*           Well-Known Prefix],                                           *)
+(*      up  what the general upstream answers for this name:               *)
+(*          [nx : AAAA gets NXDOMAIN, a6 : set of [a : address, excl : it  *)
+(*           lies inside an exclusion prefix], a4 : set of addresses]]     *)
+(* out [c : class, fwd : "none" | "gen" | "priv" | "gen+a" (the general    *)
+(*      upstream was asked the question and then the A records),           *)
+(*      v : set of texts,                                                  *)
 (*      log : BOOLEAN, why : the clause that produced it (not observable)] *)
 (*   classes: "notimp" "ref" "nx" "servfail" (rcodes, no answer),          *)
 (*            "empty" (NOERROR, no records), "up" (the upstream's answer), *)
 (*            "a" (A records, v = addresses), "ptr" (v = host labels),     *)
 (*            "svcb" (v = "<alpn>:<port>"), "null" (0.0.0.0 / ::, the      *)
-(*            default blocking mode's answer for A/AAAA)                   *)
+(*            default blocking mode's answer for A/AAAA), "aaaa" (AAAA     *)
+(*            records other than the upstream's own answer, v = addresses, *)
+(*            "syn:<ipv4>" for the DNS64 mapping of an IPv4 address)       *)
 (***************************************************************************)
 EXTENDS Sequences, Naturals, FiniteSets
 
@@ -118,13 +139,42 @@ BlockedOut(qt, why) ==
 PrivArpa(req) == req.rev.ok /\ req.rev.priv /\ req.qt \in {"PTR", "SOA", "NS"}
 LanHost(cfg, req) == cfg.dhcp /\ req.qt \in {"A", "AAAA"} /\ Immediate(req.name, cfg.suffix)
 
+\* The class of the general upstream's own answer to the question.
+UpAnswer(req) ==
+    CASE req.qt = "AAAA" -> IF req.up.nx THEN "nx" ELSE IF req.up.a6 = {} THEN "empty" ELSE "up"
+      [] req.qt = "A"    -> IF req.up.a4 = {} THEN "empty" ELSE "up"
+      [] OTHER           -> "up"
+
+Syn(as) == {"syn:" \o a : a \in as}
+
+\* S10, S11: forwarding to the general upstream.
+Forward(cfg, req) ==
+    IF ~cfg.dns64 \/ req.qt # "AAAA" THEN {Out(UpAnswer(req), "gen", {}, TRUE, "fwd")}
+    ELSE IF req.up.nx THEN {Out("nx", "gen", {}, TRUE, "fwd64-nx")}
+    ELSE LET keep == {x \in req.up.a6 : ~x.excl}
+         IN IF keep # {}
+            THEN IF keep = req.up.a6 THEN {Out("up", "gen", {}, TRUE, "fwd64-pass")}
+                 ELSE {Out("aaaa", "gen", {x.a : x \in keep}, TRUE, "fwd64-filter")}
+            ELSE IF req.up.a4 # {}
+                 THEN {Out("aaaa", "gen+a", Syn(req.up.a4), TRUE, "fwd64-syn")}
+                 \* nothing to synthesise from: "the answer received to the original
+                 \* query" -- with or without its excluded records
+                 ELSE {Out("empty", "gen+a", {}, TRUE, "fwd64-none")}
+                      \cup (IF req.up.a6 # {} THEN {Out("up", "gen+a", {}, TRUE, "fwd64-none")} ELSE {})
+
+\* PTR for an address under a DNS64 prefix
+N64Ptr(cfg, req) == cfg.dns64 /\ req.qt = "PTR" /\ req.rev.ok /\ req.rev.n64
+
 \* S9, S10
 Rest(cfg, req) ==
     IF IsBlocked(cfg, req.name) THEN BlockedOut(req.qt, "blk")
     ELSE IF PrivArpa(req)
          THEN IF cfg.privPTR THEN {Out("up", "priv", {}, TRUE, "rdns-priv")}
               ELSE UNION {Local(c, {}, "rdns-off") : c \in {"nx", "ref", "servfail"}}
-    ELSE {Out("up", "gen", {}, TRUE, "fwd")}
+    ELSE IF N64Ptr(cfg, req)
+         THEN IF cfg.privPTR /\ req.cpriv THEN {Out("up", "priv", {}, TRUE, "rdns64-priv")}
+              ELSE UNION {Local(c, {}, "rdns64-off") : c \in {"nx", "ref", "servfail"}}
+    ELSE Forward(cfg, req)
 
 \* The verdict when the special names are (sp) / are not recognised.
 V(cfg, req, sp) ==
@@ -145,6 +195,7 @@ V(cfg, req, sp) ==
          THEN IF ~req.cpriv THEN Silent("nx", {}, "lan-outside")
               ELSE IF LeaseAddrs(cfg, Head(n)) # {}
                    THEN IF qt = "A" THEN Local("a", LeaseAddrs(cfg, Head(n)), "lan-a")
+                        ELSE IF cfg.dns64 THEN Local("aaaa", Syn(LeaseAddrs(cfg, Head(n))), "lan-aaaa64")
                         ELSE Local("empty", {}, "lan-aaaa")
               ELSE IF IsBlocked(cfg, n) THEN BlockedOut(qt, "lan-blk")
               ELSE Local("nx", {}, "lan-nx")
@@ -215,6 +266,8 @@ StLeasePTR(cfg, req, os) ==
         \A o \in os : o.c = "ptr" /\ o.v = LeaseHosts(cfg, req.rev.a) /\ o.fwd = "none"
 \* A name no front stage claims: blocked -> local, otherwise forwarded intact.
 Claimed(cfg, req) ==
+    \/ cfg.dns64 /\ req.qt \in {"AAAA", "PTR"}
+    \/ UpAnswer(req) # "up"
     \/ req.qt = "ANY" /\ cfg.refuseAny
     \/ req.qt = "AAAA" /\ cfg.aaaaOff
     \/ IsSpecial(req.name)
@@ -224,8 +277,24 @@ StUnclaimed(cfg, req, os) ==
     ~Claimed(cfg, req) =>
         \A o \in os : IF IsBlocked(cfg, req.name) THEN o.fwd = "none" /\ o.c \in {"null", "empty"} /\ o.log
                       ELSE o.fwd = "gen" /\ o.c = "up" /\ o.log
-StForwardedIsLoggedAndIntact(cfg, req, os) ==
-    \A o \in os : (o.fwd # "none") <=> (o.c = "up")
+StForwardedIsLogged(cfg, req, os) ==
+    \A o \in os : /\ (o.c = "up") => (o.fwd # "none")
+                  /\ (o.fwd # "none") => o.log
+                  /\ (o.fwd = "gen+a") => (cfg.dns64 /\ req.qt = "AAAA")
+\* DNS64: no address inside an exclusion prefix is delivered while another
+\* answer is possible; synthesised addresses only when no native one is left;
+\* without DNS64 nothing is filtered or synthesised.
+Excluded(req) == {x.a : x \in {y \in req.up.a6 : y.excl}}
+Native(req)   == {x.a : x \in {y \in req.up.a6 : ~y.excl}}
+StDNS64(cfg, req, os) ==
+    \A o \in os :
+       /\ (o.c = "aaaa") => cfg.dns64 /\ req.qt = "AAAA" /\ o.v \cap Excluded(req) = {}
+       /\ (o.c = "aaaa" /\ o.fwd # "none") =>
+              \/ o.v = Native(req) /\ Native(req) # {}
+              \/ o.v = Syn(req.up.a4) /\ Native(req) = {} /\ req.up.a4 # {}
+       /\ (cfg.dns64 /\ req.qt = "AAAA" /\ o.c = "up" /\ Excluded(req) # {}) => (req.up.a4 = {} /\ Native(req) = {})
+StDNS64Ptr(cfg, req, os) ==
+    (cfg.dns64 /\ req.qt = "PTR" /\ req.rev.ok /\ req.rev.n64) => \A o \in os : o.fwd \in {"none", "priv"}
 
 StAll(cfg, req, os) ==
     /\ os # {}
@@ -244,5 +313,7 @@ StAll(cfg, req, os) ==
     /\ StPrivateArpaStaysInside(cfg, req, os)
     /\ StLeasePTR(cfg, req, os)
     /\ StUnclaimed(cfg, req, os)
-    /\ StForwardedIsLoggedAndIntact(cfg, req, os)
+    /\ StForwardedIsLogged(cfg, req, os)
+    /\ StDNS64(cfg, req, os)
+    /\ StDNS64Ptr(cfg, req, os)
 =============================================================================
